@@ -487,9 +487,9 @@ LOG_MACROS = ("trace!", "debug!", "info!", "warn!", "error!")
 # N7 idiom shims: (rule, token pattern, replacement template)
 IDIOMS = [
     ("N7.entry_or_default_push", "$m.entry($k).or_default().push($v)", "btree_entry_or_default_push(&mut $m, $k, $v)"),
-    ("N7.range_to_next_back", "$m.range(..$k).next_back()", "btree_pred(&$m, $k)"),
-    ("N7.range_to_incl_next_back", "$m.range(..=$k).next_back()", "btree_pred_incl(&$m, $k)"),
-    ("N7.range_from_next", "$m.range($k..).next()", "btree_succ_ge(&$m, $k)"),
+    ("N7.range_to_next_back", "$m.range(..$_k).next_back()", "btree_pred(&$m, $_k)"),
+    ("N7.range_to_incl_next_back", "$m.range(..=$_k).next_back()", "btree_pred_incl(&$m, $_k)"),
+    ("N7.range_from_next", "$m.range($_k..).next()", "btree_succ_ge(&$m, $_k)"),
     ("N7.last_key_value", "$m.last_key_value()", "btree_last(&$m)"),
 ]
 
@@ -572,8 +572,8 @@ def delete_log_macros(ft):
         changed = False
         ft.retok()
         for idx, (t, a, b) in enumerate(ft.toks):
-            if t in LOG_MACROS and idx + 1 < len(ft.toks) and ft.toks[idx + 1][0] == "(":
-                close = match_close(ft.mask, ft.toks[idx + 1][1])
+            if t + "!" in LOG_MACROS and idx + 2 < len(ft.toks) and ft.toks[idx + 1][0] == "!" and ft.toks[idx + 2][0] == "(":
+                close = match_close(ft.mask, ft.toks[idx + 2][1])
                 end = close + 1
                 rest = ft.mask[end:]
                 m = re.match(r"\s*;", rest)
@@ -718,8 +718,13 @@ def normalize_closure_patterns(ft):
                 q += 1
             be = q
             body = ft.text[j:be]
-        # `_` wildcards inside the tuple pattern are fine in a `let`
-        new = f"|p__{k}| {{ let {patt} = p__{k}; {body.strip()} }}"
+        # `_` wildcards inside the tuple pattern are fine in a `let`; `&x` sub-patterns (N2) are bound by reference
+        derefs = []
+        def _rep(mm):
+            derefs.append(f"let {mm.group(1)} = *{mm.group(1)}__r;")
+            return mm.group(1) + "__r"
+        patt = re.sub(r"&\s*([a-z_][A-Za-z0-9_]*)\b", _rep, patt)
+        new = f"|p__{k}| {{ let {patt} = p__{k}; {' '.join(derefs)} {body.strip()} }}"
         ft.log.append({"rule": "N3.closure_tuple_param", "fn": ft.fnpath, "from": " ".join(ft.text[pstart:be].split()), "to": " ".join(new.split())})
         ft.text = ft.text[:pstart] + new + ft.text[be:]
 
@@ -1064,7 +1069,7 @@ def emit_fn(em, info, unit, cur_source, blk, typemap):
     for s in subs:
         if s.name == "hint":
             a, lab = split_label(s.args)
-            mm = re.match(r"(entry|before|after|afterblock|at)\b\s*(?:#(\d+)\s*)?(.*)$", a, re.S)
+            mm = re.match(r"(entry|end|before|after|afterblock|at)\b\s*(?:#(\d+)\s*)?(.*)$", a, re.S)
             if not mm:
                 raise VxError(f"unit.vx:{s.lineno}: bad @hint `{a}`")
             pos_kind, nth, anchor = mm.group(1), int(mm.group(2) or 1), mm.group(3).strip().strip("`")
@@ -1073,6 +1078,9 @@ def emit_fn(em, info, unit, cur_source, blk, typemap):
                 raise VxError(f"unit.vx:{s.lineno}: assume/admit in sidecar hint is not allowed")
             if pos_kind == "entry":
                 pos = body_open_of(ft) + 1
+            elif pos_kind == "end":
+                bo_ = body_open_of(ft)
+                pos = match_close(ft.mask, bo_)
             else:
                 a0, a1 = ft.find_anchor(anchor, nth)
                 if pos_kind == "before":
